@@ -97,10 +97,14 @@ AesValue(e) == \* the first configuration against the data layer (the others equ
            ELSE IF Len(x) = 1 THEN "harness: the reference ciphertext is rejected by the specification"
            ELSE IF o.by # x[1] THEN "output differs from the specification"
            ELSE IF o.tag # x[2] THEN "tag differs from the specification" ELSE "ok"
+\* the recorder runs a job whose process died again with one child process per configuration: the observation is then crash(signal N)
+\* in the place of the exception class.  A process that dies is never an acceptable outcome (whatever the other configurations do).
+Crashes == {"crash(signal 0)", "crash(signal 4)", "crash(signal 6)", "crash(signal 7)", "crash(signal 8)", "crash(signal 11)"}
+AesCrash(o) == IF o.ex \in Crashes THEN "the process died in native code: " \o o.ex ELSE "ok"
 AesVerdict(e) == LET d == FirstDisagreement(e.obs, LAMBDA o1, o2 : TRUE, AesCore) IN
    IF Len(e.obs) < 2 THEN "harness: fewer than two configurations"
    ELSE IF \E i \in 1..Len(e.obs) : ~IsBytes(e.obs[i].by) \/ ~IsBytes(e.obs[i].tag) THEN "harness: malformed bytes"
-   ELSE JoinClauses([i \in 1..Len(e.obs) |-> <<e.obs[i].who, AesSelection(e, e.obs[i])>>]
+   ELSE JoinClauses([i \in 1..Len(e.obs) |-> <<e.obs[i].who, AesSelection(e, e.obs[i])>>] \o [i \in 1..Len(e.obs) |-> <<e.obs[i].who, AesCrash(e.obs[i])>>]
                     \o <<<<"*", IF d[1] = 0 THEN "ok" ELSE "configurations disagree: " \o e.obs[d[1]].who \o " vs " \o e.obs[d[2]].who>>,
                          <<e.obs[1].who, AesValue(e)>>>>)
 
